@@ -99,6 +99,60 @@ class SysCase:
             w.close()
 
 
+class SeqSysCase:
+    """Several fault-free transfers one after the other on the SAME pair of handlers (the put request's own mode and
+    closure vary, the link is perfect, the handlers sit idle for a while between transactions).  Each transaction is
+    judged by check_c02 on its own."""
+
+    def __init__(self, cfg: Cfg, txs, extra_sm=0, tag="c02seq"):
+        self.cfg, self.txs, self.extra_sm, self.tag = cfg, list(txs), extra_sm, tag   # txs: (data, req_mode, req_closure, gap_ms)
+        self.faults = []
+        self.success_checks = []
+
+    def describe(self):
+        c = self.cfg
+        return {"mode": campaign.eff_mode(c), "closure": campaign.eff_closure(c), "cktype": c.cktype, "crc": c.crc,
+                "imm_nak": c.imm_nak, "max_seg": c.max_seg, "check_ms": c.check_ms, "extra_sm": self.extra_sm,
+                "sequence": [(None if d is None else len(d), m, cl, gap) for d, m, cl, gap in self.txs], "faults": []}
+
+    def run(self):
+        import copy
+        import types
+        w = World(self.cfg, self.tag)
+        self.results = []
+        try:
+            for data, rm, rc, gap in self.txs:
+                w.cfg.req_mode, w.cfg.req_closure = rm, rc
+                s0, d0 = len(w.src.events), len(w.dst.events)
+                start_transfer(w, data)
+                r = Runner(w, [], max_rounds=250, extra_sm=self.extra_sm)
+                q = r.run()
+                res = types.SimpleNamespace(
+                    cfg=copy.copy(w.cfg), data=data, quiescent=q, states=(w.src.h.state.value, w.dst.h.state.value),
+                    api_exc=list(r.api_exc), src_events=[e for _, e in w.src.events[s0:]], dst_events=[e for _, e in w.dst.events[d0:]],
+                    dest_bytes=dest_file_bytes(w, tuple(self.cfg.dst_path)), now=VClock.now, faults=[])
+                self.results.append(res)
+                if res.states != (0, 0):
+                    break
+                w.advance(gap)
+            self.sides = [("source", w.src.ops, w.src.obs), ("dest", w.dst.ops, w.dst.obs)]
+            return self
+        finally:
+            w.close()
+
+
+def c02_seq_cases(tier, rng):
+    gaps = [0, 0, 400, 1000, 3000, 20000, 120000]
+    for _ in range(60 if tier == "quick" else 3000):
+        cfg = campaign.rand_cfg(rng, req_mode=None, req_closure=None)
+        txs = []
+        for _ in range(rng.choice([2, 2, 3, 4])):
+            size = rng.choice(campaign.SIZES)
+            txs.append((bytes(rng.getrandbits(8) for _ in range(size)), rng.choice([None, 0, 1, 1]), rng.choice([None, False, True, True]),
+                        rng.choice(gaps)))
+        yield SeqSysCase(cfg, txs, extra_sm=rng.choice([0, 0, 1]))
+
+
 # ------------------------------------------------------------------ oracles on a finished SysCase
 def check_c01(case: SysCase):
     cfg = case.cfg
@@ -158,11 +212,11 @@ def check_c03(case: SysCase):
 
 # ------------------------------------------------------------------ case generators
 def c02_cases(tier, rng):
-    sizes = [0, 1, 4, 5, 8, 9] if tier == "quick" else list(range(0, 14))
+    sizes = [0, 1, 4, 5, 8, 9] if tier == "quick" else list(range(0, 14)) + [63, 64, 65, 255, 256, 257, 1000, 1024, 3000]
     n = 0
     for mode, closure, cktype in itertools.product((0, 1), (False, True), (0, 2, 3, 15)):
         for size in sizes:
-            reps = 1 if tier == "quick" else 3
+            reps = 1 if tier == "quick" else 30
             for _ in range(reps):
                 cfg = campaign.rand_cfg(rng, mode=mode, closure=closure, req_mode=None, req_closure=None, cktype=cktype)
                 shape = rng.choice(["file", "file", "dir", "exists"])
@@ -175,7 +229,7 @@ def c02_cases(tier, rng):
 
 
 def c01_cases(tier, rng):
-    n = 400 if tier == "quick" else 6000
+    n = 400 if tier == "quick" else 40000
     for _ in range(n):
         cfg = campaign.rand_cfg(rng)
         size = rng.choice(campaign.SIZES)
@@ -223,7 +277,7 @@ def c03_cases(tier, rng):
             pairs = rng.sample(pairs, 1500) if size else pairs
         for f1, f2 in pairs:
             yield SysCase(mk(2), data, [f1, f2], tag="c03")
-    for _ in range(150 if tier == "quick" else 3000):
+    for _ in range(150 if tier == "quick" else 20000):
         K = rng.randint(1, 6)
         cfg = campaign.rand_cfg(rng, mode=0, req_mode=None, ack_limit=K + rng.randint(1, 3), nak_limit=K + rng.randint(1, 3))
         size = rng.choice(campaign.SIZES)
@@ -388,7 +442,7 @@ def _short(x):
 
 def c11_cases(tier, rng):
     kinds = ["completed", "lossy", "cancel_src", "cancel_dst", "abandoned"]
-    n = 80 if tier == "quick" else 800
+    n = 80 if tier == "quick" else 5000
     for i in range(n):
         mode = rng.choice([0, 0, 1])
         cfg = campaign.rand_cfg(rng, mode=mode, req_mode=None, ack_ms=1000, nak_ms=1000, check_ms=1000,
@@ -446,7 +500,7 @@ class HostAudit:
 
 
 def c16_cases(tier, rng):
-    n = 60 if tier == "quick" else 600
+    n = 60 if tier == "quick" else 4000
     for _ in range(n):
         cfg = campaign.rand_cfg(rng)
         size = rng.choice(campaign.SIZES)
